@@ -10,6 +10,7 @@ import (
 	. "go.minekube.com/common/minecraft/component"
 	"go.minekube.com/gate/pkg/edition/java/proto/packet"
 	util2 "go.minekube.com/gate/pkg/edition/java/proto/util"
+	"go.minekube.com/gate/pkg/internal/verifhook"
 )
 
 // ConnectionRequest can send a connection request to another server on the proxy.
@@ -240,6 +241,7 @@ func (p *connectedPlayer) handleKickEvent(e *KickedFromServerEvent, friendlyReas
 	previousConnection := p.connectedServer_
 	if kickedFromCurrent {
 		p.connectedServer_ = nil
+		verifhook.Event("sw.setConnected", "player", p.profile.Name, "server", "")
 	}
 	p.mu.Unlock()
 
@@ -342,12 +344,14 @@ func (p *connectedPlayer) resetInFlightConnection() {
 
 // without locking
 func (p *connectedPlayer) resetInFlightConnection0() {
+	verifhook.Event("sw.setInFlight", "player", p.profile.Name, "server", "", "had", p.connInFlight.verifName())
 	p.connInFlight = nil
 }
 
 func (p *connectedPlayer) setInFlightConnection(s *serverConnection) {
 	p.mu.Lock()
 	defer p.mu.Unlock()
+	verifhook.Event("sw.setInFlight", "player", p.profile.Name, "server", s.verifName(), "had", p.connInFlight.verifName())
 	p.connInFlight = s
 }
 
@@ -361,11 +365,14 @@ func (c *connectionRequest) checkServer(server RegisteredServer) (s ConnectionSt
 	defer p.mu.RUnlock()
 	if p.connInFlight != nil || (p.connectedServer_ != nil &&
 		!p.connectedServer_.completedJoin.Load()) {
+		verifhook.Event("sw.check", "player", p.profile.Name, "server", server.ServerInfo().Name(), "res", "inprogress")
 		return InProgressConnectionStatus, false
 	}
 	if p.connectedServer_ != nil && RegisteredServerEqual(p.connectedServer_.Server(), server) {
+		verifhook.Event("sw.check", "player", p.profile.Name, "server", server.ServerInfo().Name(), "res", "already")
 		return AlreadyConnectedConnectionStatus, false
 	}
+	verifhook.Event("sw.check", "player", p.profile.Name, "server", server.ServerInfo().Name(), "res", "ok")
 	return 0, true
 }
 
@@ -399,6 +406,7 @@ func (c *connectionRequest) internalConnect(ctx context.Context) (result *connec
 		return plainConnectionResult(CanceledConnectionStatus, newDest), nil
 	}
 
+	verifhook.Point("sw.checked", "player", c.player.profile.Name, "server", server.info.Name())
 	conn := newServerConnection(server, c.previousServer, c.player)
 	c.player.setInFlightConnection(conn)
 	defer c.resetIfInFlightIs(conn)
@@ -406,8 +414,10 @@ func (c *connectionRequest) internalConnect(ctx context.Context) (result *connec
 }
 
 func (c *connectionRequest) resetIfInFlightIs(establishedConnection *serverConnection) {
+	verifhook.Point("sw.reset", "player", c.player.profile.Name, "server", establishedConnection.verifName())
 	c.player.mu.Lock()
 	defer c.player.mu.Unlock()
+	verifhook.Event("sw.attemptEnd", "player", c.player.profile.Name, "server", establishedConnection.verifName(), "was", c.player.connInFlight == establishedConnection)
 	if c.player.connInFlight == establishedConnection {
 		c.player.connInFlight = nil
 	}
